@@ -611,7 +611,7 @@ func (d Driver) Run(c *core.Ctx) error {
 		if o.Workers == 0 {
 			o.Workers = 4
 		}
-		o.HeapGB = 3
+		o.HeapGB = c.Pick(3, 6)
 		o.Timeout = 30 * time.Minute
 		jobs = append(jobs, job{o, what, mc})
 	}
